@@ -53,6 +53,17 @@ from warnings import warn
 
 from .interpreter import Interpreter
 
+def _floordiv(lhs, rhs):
+    """Floor division: the floor of the exact quotient.
+
+    For exact rational operands the quotient is recovered from the remainder, because the number classes' own
+    floor division is off by one when the quotient is a negative integer (1 // (-1/2) came out as -3, not -2).
+    """
+    if getattr(lhs, "is_Rational", False) and getattr(rhs, "is_Rational", False) and rhs != 0:
+        return (lhs - lhs % rhs) / rhs
+    return operator.floordiv(lhs, rhs)
+
+
 _BINARY_OP_MAP = {
     ast.Mult: operator.mul,
     ast.Add: operator.add,
@@ -61,7 +72,7 @@ _BINARY_OP_MAP = {
     ast.Mod: operator.mod,
     ast.Pow: operator.pow,
     ast.BitXor: operator.pow,
-    ast.FloorDiv: operator.floordiv,
+    ast.FloorDiv: _floordiv,
 }
 
 
